@@ -81,6 +81,11 @@ def build_harness(config, sanitize=True, extra=()):
 def lake_build(targets):
     t0 = time.time()
     r = run(['lake', 'build'] + targets, cwd=LEAN)
+    if r.returncode != 0 and not re.search(r'^error: .*\.lean:\d+:\d+', r.stdout, re.M):
+        # no Lean diagnostic in the output: the build TOOL failed (killed under memory pressure, lock contention, ...);
+        # the build is incremental, so one retry is cheap and a real proof failure fails again with its diagnostic
+        time.sleep(5)
+        r = run(['lake', 'build'] + targets, cwd=LEAN)
     return r.returncode == 0, r.stdout, time.time() - t0
 
 
